@@ -128,7 +128,7 @@ def screen_steps(stdout):
 
 def run_md(engine, mols, params, steps, dt=0.5, temp=300.0, seed=0, remove_com=None, reuse_P=True,
            out=None, workdir=None, velocities=None, k=3, damp=10.0, xl_extra=None, active_state=None,
-           pad_extra=0, hook=None, keep=False, nmol_out=None, copy_params=True):  # fmt: skip
+           pad_extra=0, hook=None, keep=False, nmol_out=None, copy_params=True, engine_obj=None):  # fmt: skip
     """One real MD run in a scratch dir. Returns dict: h5.<mol>, xyz.<mol>, stdout, final state.
     copy_params=False hands the caller's settings dictionary itself to the package (history checks)."""
     if copy_params:
@@ -145,7 +145,8 @@ def run_md(engine, mols, params, steps, dt=0.5, temp=300.0, seed=0, remove_com=N
         cfg = dict(out or {})
         cfg.setdefault("molid", list(range(nmol)))
         o = output_cfg("md", **cfg)
-        md = make_engine(engine, params, dt, temp, o, k=k, damp=damp, xl_extra=xl_extra)
+        # engine_obj: an engine object that has served an earlier run (history checks); it is returned as res["engine"]
+        md = engine_obj if engine_obj is not None else make_engine(engine, params, dt, temp, o, k=k, damp=damp, xl_extra=xl_extra)
         if velocities is not None:
             molecule.velocities = torch.as_tensor(np.asarray(velocities, float)).clone()
         if hook is not None:
@@ -160,6 +161,7 @@ def run_md(engine, mols, params, steps, dt=0.5, temp=300.0, seed=0, remove_com=N
         res = collect("md", nmol_out if nmol_out is not None else cfg["molid"])
         res["stdout"] = buf.getvalue()
         res["error"] = err
+        res["engine"] = md
         res["final"] = {
             "coordinates": sp.to_np(molecule.coordinates),
             "velocities": sp.to_np(molecule.velocities) if torch.is_tensor(molecule.velocities) else None,
